@@ -34,6 +34,9 @@
 ; (assumed) hex.EncodeToString: uninterpreted
 (declare-fun hexs (Slice_Int) GoString)
 
+; @block errstr requires GoString
+; (assumed) the text of an error value is a function of the value (errors are immutable)
+(declare-fun errstr (Int) GoString)
 ; @block strat requires GoString
 (declare-fun strat (GoString Int) Int)
 ; @block substr requires GoString
